@@ -231,19 +231,6 @@ def rule_format_printer_parser(ctx, ix):
         "for mode, ordering in dims" in src and "modes.append(mode)" in src and "orderings.append(ordering)" in src and "return Format(tuple(modes), tuple(orderings))" in src,
         "make_format_with_orderings does not pair each mode with its own ordering digit",
     )
-    dp = ix.func(f"{F_MOD}.Format.deparse").node
-    ifs = [s for s in dp.body if isinstance(s, ast.If)]
-    good = False
-    if len(ifs) == 1:
-        i = ifs[0]
-        good = (
-            u(i.test) == "self.ordering == tuple(range(self.order))"
-            and len(i.body) == 1
-            and u(i.body[0]) == "return ''.join((mode.character for mode in self.modes))"
-            and len(i.orelse) == 1
-            and u(i.orelse[0]) == "return ''.join((mode.character + str(ordering) for mode, ordering in zip(self.modes, self.ordering, strict=True)))"
-        )
-    check("format/_format.py:Format.deparse", good, "Format.deparse is not: natural ordering => bare modes, otherwise mode character + ordering per level")
     # Format.__post_init__ requires a permutation before anything is built
     pi = ix.func(f"{F_MOD}.Format.__post_init__").node
     tests = [u(s.test) for s in pi.body if isinstance(s, ast.If) and any(isinstance(x, ast.Raise) for x in s.body)]
@@ -555,6 +542,196 @@ def rule_rejections_semantic(ctx, ix):
         ctx.ok("C12.rejection-semantics", "expression/ast.py:Assignment.__post_init__", n=n_cases)
 
 
+def rule_roundtrip_semantic(ctx, ix):
+    """deparse() of the expression classes and Format.deparse are evaluated abstractly (symeval) on
+    every expression tree up to depth 2 (plus left/right combs of depth 3) and every format up to order
+    3; the text is parsed by a model parser built from the grammar facts that C12.grammar verifies
+    (levels expression > term > factor, left folds, operator/constructor map; the two format
+    alternatives) and must give back the same tree."""
+    import itertools
+
+    from . import symeval as S
+
+    ctx.rule("C12.roundtrip-semantics", "parse_model(deparse(t)) == t for all small trees / formats (abstract evaluation)", min_instances=500)
+    meth = {}
+    for c in ("Add", "Subtract", "Multiply", "Tensor", "Integer", "Float", "Assignment"):
+        meth[c] = {}
+        for q, f in ix.funcs.items():
+            if q.rsplit(".", 1)[0] == f"{A_MOD}.{c}":
+                meth[c][f.name] = f.node
+    G = {c: S.Obj("Class", name=c) for c in ("Add", "Subtract", "Multiply", "Tensor", "Integer", "Float", "Literal", "Expression")}
+
+    def node(cls, **attrs):
+        bases = {"Integer": ("Literal", "Expression"), "Float": ("Literal", "Expression")}.get(cls, ("Expression",))
+        return S.Obj(cls, __structural__=True, __methods__=meth[cls], __bases__=bases, **attrs)
+
+    leaves = [lambda: node("Tensor", name="a", indexes=("i", "j")), lambda: node("Integer", value=2), lambda: node("Tensor", name="b", indexes=())]
+    ops = ["Add", "Subtract", "Multiply"]
+
+    def trees(depth):
+        if depth == 0:
+            return [lf() for lf in leaves]
+        sub = trees(depth - 1)
+        out = list(sub)
+        for op in ops:
+            for l in sub:
+                for r in sub:
+                    out.append(node(op, left=l, right=r))
+        return out
+
+    def shape(t):
+        if t.tag in ops:
+            return (t.tag, shape(t.attrs["left"]), shape(t.attrs["right"]))
+        if t.tag == "Tensor":
+            return ("Tensor", t.attrs["name"], t.attrs["indexes"])
+        return (t.tag, t.attrs["value"])
+
+    # ---- model parser from the grammar facts
+    import re as _re
+
+    TOK = _re.compile(r"\s*(?:(\d+\.\d+(?:[Ee][+-]?\d+)?|\d+[Ee][+-]?\d+)|(\d+)|([A-Za-z][A-Za-z0-9]*)|(.))")
+
+    def tokenize(text):
+        out = []
+        pos = 0
+        while pos < len(text):
+            m = TOK.match(text, pos)
+            if not m:
+                raise ValueError(text)
+            pos = m.end()
+            if m.group(1):
+                out.append(("float", m.group(1)))
+            elif m.group(2):
+                out.append(("int", m.group(2)))
+            elif m.group(3):
+                out.append(("name", m.group(3)))
+            elif m.group(4).strip():
+                out.append(("sym", m.group(4)))
+        return out
+
+    def parse_model(text):
+        toks = tokenize(text)
+        p = [0]
+
+        def peek():
+            return toks[p[0]] if p[0] < len(toks) else (None, None)
+
+        def eat(kind=None, val=None):
+            k, v = peek()
+            if (kind and k != kind) or (val and v != val):
+                raise ValueError(f"unexpected {v!r} in {text!r}")
+            p[0] += 1
+            return v
+
+        def factor():
+            k, v = peek()
+            if k == "sym" and v == "(":
+                eat()
+                e = expression()
+                eat("sym", ")")
+                return e
+            if k == "int":
+                eat()
+                return ("Integer", int(v))
+            if k == "float":
+                eat()
+                return ("Float", float(v))
+            name = eat("name")
+            eat("sym", "(")
+            idx = []
+            while peek() != ("sym", ")"):
+                idx.append(eat("name"))
+                if peek() == ("sym", ","):
+                    eat()
+            eat("sym", ")")
+            return ("Tensor", name, tuple(idx))
+
+        def term():
+            e = factor()
+            while peek() == ("sym", "*"):
+                eat()
+                e = ("Multiply", e, factor())
+            return e
+
+        def expression():
+            e = term()
+            while peek() in (("sym", "+"), ("sym", "-")):
+                op = eat()
+                e = ("Add" if op == "+" else "Subtract", e, term())
+            return e
+
+        e = expression()
+        if p[0] != len(toks):
+            raise ValueError(f"trailing text in {text!r}")
+        return e
+
+    pool = trees(2)
+    base = trees(1)
+    for op1 in ops:
+        for op2 in ops:
+            for op3 in ops:
+                for a_, b_ in ((0, 1), (1, 0)):
+                    x = base[0]
+                    # left comb and right comb of depth 3
+                    pool.append(node(op1, left=node(op2, left=node(op3, left=x, right=base[1]), right=base[2]), right=base[a_]))
+                    pool.append(node(op1, left=base[b_], right=node(op2, left=base[2], right=node(op3, left=x, right=base[1]))))
+    bad = {}
+    n = 0
+    for t in pool:
+        n += 1
+        dp = t.attrs["__methods__"].get("deparse")
+        outs = list(S.explore(dp, [t], globals_=G)) if dp is not None else [({}, ("uninterpretable", "no deparse"))]
+        for _a, (kind, val) in outs:
+            if kind != "return" or not isinstance(val, str):
+                bad.setdefault(f"deparse not interpretable / not a string: {kind} {val!r}"[:120], shape(t))
+                continue
+            try:
+                back = parse_model(val)
+            except ValueError as ex:
+                bad.setdefault(f"deparse prints `{val}`, which the grammar does not accept ({ex})"[:160], shape(t))
+                continue
+            if back != shape(t):
+                bad.setdefault(f"`{val}` re-parses as a different tree", (shape(t), back))
+    ctx.instance("C12.roundtrip-semantics", n)
+    for why, ex in bad.items():
+        ctx.fail("C12.roundtrip-semantics", f"expression/ast.py:deparse:{why[:70]}", f"{why}; e.g. {ex}")
+    ctx.ok("C12.roundtrip-semantics", n=max(0, n - len(bad)))
+    # ---- formats
+    fdp = ix.func(f"{F_MOD}.Format.deparse").node
+    order_prop = ix.funcs.get(f"{F_MOD}.Format.order")
+    nf = 0
+    badf = {}
+    for order in range(0, 4):
+        for modes, ordering in S.all_formats(order):
+            nf += 1
+            f_ = S.Obj("Format", modes=tuple(modes), ordering=tuple(ordering), __methods__={"order": order_prop.node} if order_prop else {}, order_=order)
+            if not order_prop:
+                f_.attrs["order"] = order
+            outs = list(S.explore(fdp, [f_], globals_={}))
+            for _a, (kind, val) in outs:
+                if kind != "return" or not isinstance(val, str):
+                    badf.setdefault(f"Format.deparse not interpretable: {kind} {val!r}"[:120], (modes, ordering))
+                    continue
+                # model of the format grammar: rep(mode) with natural ordering | rep(mode & integer)
+                m1 = _re.fullmatch(r"[ds]*", val)
+                m2 = _re.fullmatch(r"(?:[ds]\d+)*", val)
+                if m1:
+                    back = (tuple(val), tuple(range(len(val))))
+                elif m2:
+                    pairs = _re.findall(r"([ds])(\d+)", val)
+                    back = (tuple(p_[0] for p_ in pairs), tuple(int(p_[1]) for p_ in pairs))
+                else:
+                    badf.setdefault(f"Format.deparse prints `{val}`, which neither format alternative accepts", (order, ordering))
+                    continue
+                want = (tuple(m_.attrs["character"] for m_ in modes), tuple(ordering))
+                if back != want:
+                    badf.setdefault(f"`{val}` re-parses as modes {back[0]} ordering {back[1]}", want)
+    ctx.instance("C12.roundtrip-semantics", nf)
+    for why, ex in badf.items():
+        ctx.fail("C12.roundtrip-semantics", f"format/_format.py:Format.deparse:{why[:70]}", f"{why}; expected {ex}")
+    ctx.ok("C12.roundtrip-semantics", n=max(0, nf - len(badf)))
+
+
 def run(ctx):
     ix = SourceIndex(ctx.src)
     rule_grammar(ctx, ix)
@@ -564,4 +741,5 @@ def run(ctx):
     rule_parser_escape(ctx, ix)
     rule_rejections(ctx, ix)
     rule_rejections_semantic(ctx, ix)
+    rule_roundtrip_semantic(ctx, ix)
     return ix
